@@ -13,11 +13,15 @@ type probe struct {
 	Name  string `json:"name"`
 	Type  uint16 `json:"type"`
 	DO    bool   `json:"do"`
-	Kind  string `json:"kind"` // www hot txt fresh onlyold onlynew ns dnskey ds-victim ds-deeper sr
+	CD    bool   `json:"cd,omitempty"` // restart scenarios only: the key the resolver's own look-ups use
+	Kind  string `json:"kind"`         // www hot txt fresh onlyold onlynew ns dnskey ds-victim ds-deeper sr
 	Level int    `json:"level"`
 }
 
 func (p probe) String() string {
+	if p.CD {
+		return fmt.Sprintf("%s/%s(%s,L%d,do=%v,cd=1)", p.Name, dns.TypeToString[p.Type], p.Kind, p.Level, p.DO)
+	}
 	return fmt.Sprintf("%s/%s(%s,L%d,do=%v)", p.Name, dns.TypeToString[p.Type], p.Kind, p.Level, p.DO)
 }
 
